@@ -605,12 +605,30 @@ class Interp:
             return
         yield st, self.lookup_name(st, e.id)
 
+    def _elts(self, e, st):
+        """elements of a tuple / list display; `*seq` splices the items of a sequence with a concrete spine"""
+        plain = [a.value if isinstance(a, ast.Starred) else a for a in e.elts]
+        for st1, vs in self.eval_seq(plain, st):
+            if isinstance(vs, Raise):
+                yield st1, vs
+                continue
+            out = []
+            for a, v in zip(e.elts, vs):
+                if isinstance(a, ast.Starred):
+                    items = self.lib.concrete_items(self, st1, v)
+                    if items is None:
+                        raise Unsupported("starred expression over a value whose items are not concrete")
+                    out.extend(items)
+                else:
+                    out.append(v)
+            yield st1, out
+
     def ev_Tuple(self, e, st):
-        for st1, vs in self.eval_seq(e.elts, st):
+        for st1, vs in self._elts(e, st):
             yield st1, (vs if isinstance(vs, Raise) else tuple(vs))
 
     def ev_List(self, e, st):
-        for st1, vs in self.eval_seq(e.elts, st):
+        for st1, vs in self._elts(e, st):
             yield st1, (vs if isinstance(vs, Raise) else st1.new_list(vs))
 
     def ev_Dict(self, e, st):
@@ -779,6 +797,10 @@ class Interp:
                     return
                 if self.spec:
                     raise Unsupported("spec: no attribute %s on %s" % (name, v.cls.name))
+                if v.cls.node is None and not is_exc_class(v.cls):
+                    # an object of an EXTERNAL class (library model): an attribute the model lacks is a gap of the model,
+                    # not an AttributeError of the program
+                    raise Unsupported("attribute %s of the external %s is not modelled" % (name, v.cls.qualname))
                 if v.oid in PARTIAL_OIDS:
                     # an object described by a contract's spec: only the declared fields are known; an attribute the
                     # spec does not mention may well exist on the real object (e.g. one added to __init__ later)
@@ -888,16 +910,79 @@ class Interp:
             if isinstance(f, Raise):
                 yield st1, f
                 continue
-            if any(isinstance(a, ast.Starred) for a in e.args) or any(k.arg is None for k in e.keywords):
-                raise Unsupported("*args/**kwargs call")
+            if any(k.arg is None for k in e.keywords):
+                raise Unsupported("**kwargs call")
             # logging calls: arguments are evaluated (exceptions inside them are real), call is a no-op
-            for st2, vs in self.eval_seq(list(e.args) + [k.value for k in e.keywords], st1):
+            plain = [a.value if isinstance(a, ast.Starred) else a for a in e.args]
+            for st2, vs in self.eval_seq(plain + [k.value for k in e.keywords], st1):
                 if isinstance(vs, Raise):
                     yield st2, vs
                     continue
-                args = vs[:len(e.args)]
+                args = []
+                for a, v in zip(e.args, vs[:len(e.args)]):
+                    if isinstance(a, ast.Starred):
+                        items = self.lib.concrete_items(self, st2, v) if hasattr(self.lib, "concrete_items") else None
+                        if items is None:
+                            raise Unsupported("*args with a value whose items are not concrete")
+                        args.extend(items)              # f(*seq): the items of a sequence with a concrete spine
+                    else:
+                        args.append(v)
                 kwargs = {k.arg: v for k, v in zip(e.keywords, vs[len(e.args):])}
                 yield from self.call(st2, f, args, kwargs, node=e)
+
+    def ev_NamedExpr(self, e, st):
+        """(name := value)"""
+        if not isinstance(e.target, ast.Name):
+            raise Unsupported("walrus target")
+        for st1, v in self.eval(e.value, st):
+            if isinstance(v, Raise):
+                yield st1, v
+                continue
+            for st2, o in self.assign(st1, e.target, v):
+                if o[0] != "normal":
+                    raise Unsupported("walrus assignment outcome")
+                yield st2, v
+
+    def ev_DictComp(self, e, st):
+        """{k: v for x in <iterable with a concrete spine>} (one generator)"""
+        if len(e.generators) != 1:
+            raise Unsupported("dict comprehension shape")
+        g = e.generators[0]
+        for st1, it in self.eval(g.iter, st):
+            if isinstance(it, Raise):
+                yield st1, it
+                continue
+            items = self.lib.concrete_items(self, st1, it) if hasattr(self.lib, "concrete_items") else None
+            if items is None:
+                raise Unsupported("dict comprehension over a symbolic sequence")
+            cur = [(st1, {})]
+            for x in items:
+                nxt = []
+                for s2, acc in cur:
+                    if isinstance(acc, Raise):
+                        nxt.append((s2, acc))
+                        continue
+                    for s3, o in self.assign(s2, g.target, x):
+                        conds = [(s3, True)]
+                        for cnd in g.ifs:
+                            conds = [(s5, b) for s4, ok in conds if ok for s5, c in self.eval(cnd, s4)
+                                     for s5, b in self.branch(s5, self.truth(s5, c))] + [(s4, False) for s4, ok in conds if not ok]
+                        for s4, ok in conds:
+                            if not ok:
+                                nxt.append((s4, acc))
+                                continue
+                            for s5, kv in self.eval_seq([e.key, e.value], s4):
+                                if isinstance(kv, Raise):
+                                    nxt.append((s5, kv))
+                                elif is_sym(kv[0]):
+                                    raise Unsupported("dict comprehension with a symbolic key")
+                                else:
+                                    d2 = dict(acc)
+                                    d2[kv[0]] = kv[1]
+                                    nxt.append((s5, d2))
+                cur = nxt
+            for s2, acc in cur:
+                yield s2, (acc if isinstance(acc, Raise) else s2.new_dict(acc))
 
     # ------------------------------------------------------------------ calls
     def call(self, st, f, args, kwargs, node=None):
